@@ -139,7 +139,11 @@ class ModbusRtuFramer(ModbusFramer):
         """
         if len(self._buffer) > self._hsize:
             if not self._header:
-                self.populateHeader()
+                try:
+                    self.populateHeader()
+                except (IndexError, struct.error):
+                    # the size of this frame cannot be computed yet
+                    return False
 
             return self._header and len(self._buffer) >= self._header['len']
         else:
@@ -226,7 +230,11 @@ class ModbusRtuFramer(ModbusFramer):
             unit = [unit]
         self.addToFrame(data)
         single = kwargs.get("single", False)
-        if self.isFrameReady():
+        if not self._header.get('len'):
+            # no frame size known yet (e.g. the placeholder header of a new
+            # framer): compute it from the buffer
+            self._header = {}
+        while self.isFrameReady():
             if self.checkFrame():
                 if self._validate_unit_id(unit, single):
                     self._process(callback)
